@@ -25,13 +25,13 @@ func TestMain(m *testing.M) {
 	R = ev.New("C05", "model_checking")
 	R.Rule("events: issue one instruction (track local-recursive / local-direct / everywhere / remote / meta, untrack, recover(c), recoverAll over the CID universe; the shared pinset is edited first, then the tracker is told), apply(call) or fail(call) for a Pin/Unpin call parked in the model daemon; a later instruction may be issued while calls are parked. " +
 		"DFS over events from the empty tracker, bounded by instructions per path and by deviations (a call left parked past the next instruction, a completion out of order, a daemon failure); every path ends by completing what is parked, quiescing (clause 1), then a healthy recover round (clause 2); clause 3 is checked at every instruction. " +
-		"A state = canonical (per CID: shared-pinset entry, daemon pin, tracker operation type/phase/mode/error, parked call, tolerated-failure flag; queue occupancy; blocked instructions); a state reached again with no more remaining budget is not re-expanded. " +
+		"A state = canonical (per CID: shared-pinset entry, daemon pin, tracker operation type/phase/mode/error, parked call, tolerated-failure flag, and for a direct-mode entry whether the daemon held a recursive pin when it was tracked and whether a recover was issued since; queue occupancy; blocked instructions); a state reached again with no more remaining budget (instructions, deviations) than before is not re-expanded (the abstraction is cross-checked against an unpruned exploration in every run). " +
 		"states = distinct canonical states, transitions = distinct events applied (replays excluded); one evaluation = one complete path ending in both clause evaluations on the real code; non-trivial = the path made the tracker call the daemon and has >= 2 instructions or >= 1 deviation; distinct = (config, quiescent state, per-CID verdicts)")
 	R.Assume("instructions are issued one at a time by the harness (as one consensus component does); only daemon completions are concurrent with them. Lock-level interleavings inside the tracker are the E1 refinement's job, not this check's")
 	R.Assume("the shared pinset changes only the way Cluster.setupPin allows: an entry never changes between data and meta type and a recursive entry never becomes direct without being removed first")
 	R.Assume("model daemon semantics (clus.IPFS, mirrors ipfshttp.Connector over go-ipfs): a call cancelled while in flight has no effect; pin direct over recursive is refused; pin recursive upgrades direct; unpin of nothing succeeds")
 	R.Assume("the code under test does not look at CID values: the first CID a path mentions is 'a', the next 'b'")
-	R.Assume("the order in which one RecoverAll call walks its status map, and the race between its successive enqueues and the worker dequeuing, are not controlled: they are explored as they happen and replays that diverge are retried")
+	R.Assume("the order in which one RecoverAll call walks its status map (Go map iteration) is not controlled by the harness: when a recoverAll event creates >= 2 operations its distinct outcomes are collected by re-executing the event (up to 60 times after the last new outcome) and each outcome is explored as its own branch; replays whose prefix diverges are retried (up to 600 times, else the branch is counted as abandoned and the run marked not exhaustive). Every other choice is enumerated exhaustively")
 	ev.Main(m.Run, R)
 }
 
